@@ -96,6 +96,10 @@ def check_case(acc, chain_l, locking, load, init, sched, overload=False):
     spec = menu.assign(chain_l, locking=locking, init=init, motor=menu.MOTOR_CUR if sched in ('coast', 'rehome-while-held', 'two-solvers') else None)
     stall = menu.stall_at_output(spec)
     spec['load'] = load_spec(load[0], load[1] * (20 if overload else 1), stall)
+    # the order in which the chain's relations are declared is the user's choice: three schedules use another one
+    order = {'run+continue': 'reverse', 'stop': 'matings-first', 'reset-rerun': 'joints-first'}.get(sched)
+    if order:
+        spec['declare_order'] = order
     if sched == 'coast':
         if load[0] != 'const':
             return
